@@ -3,7 +3,7 @@
 Case grammar (one history per line):  <container> <param> <op> <op> ...
   al  N   pb:v er:k pg cl set:i:v hold:k                         Dune::ArrayList<int,N>
   sl  0   pb:i:v pf:i:v pop:i cl:i mins:i:k:v mrem:i:k mend:i:v iaft:i:k:v idel:i:k asg:i self:i cpy:i   two Dune::SLList<int>
-  lru K   ins:k:v touch:k popf popb rsz:n cl                     Dune::lru<int,int>, find() observed for keys 0..K-1
+  lru K   ins:k:v touch:k ins1:k popf popb rsz:n cl                     Dune::lru<int,int>, find() observed for keys 0..K-1
   rv  n   pb:i:v pop:i rsz:i:k cl:i set:i:j:v fill:i:v mk:i:c:v from:i:a,b,.. swap asg:i at:i:j            two Dune::ReservedVector<int,n>
   bv  bs  rsz:n:v cl sall uall set:i:j:v flip:i:j bset:i breset:i bflip:i abool:i:v abits:i:bits ablk:i:k
           and|or|xor:i:bits andb|orb|xorb:i:k shl:i:k shr:i:k    Dune::BitSetVector<bs>
@@ -169,7 +169,7 @@ def lru_ops(nk):
         ops = []
         for k in range(nk):
             ops.append(("ins:%d:%d" % (k, ctr), tuple([k] + [x for x in keys if x != k])))
-            ops.append(("touch:%d" % k, tuple([k] + [x for x in keys if x != k]) if k in keys else tuple(keys)))
+            ops.append(("%s:%d" % (("touch", "ins1")[ctr % 2], k), tuple([k] + [x for x in keys if x != k]) if k in keys else tuple(keys)))
         if keys:
             ops += [("popf", tuple(keys[1:])), ("popb", tuple(keys[:-1]))]
             ops += [("rsz:%d" % (len(keys) - 1), tuple(keys[:-1]))]
@@ -189,7 +189,7 @@ def lru_random(rng, nk, length):
             hist.append("ins:%d:%d" % (k, ctr)); ctr += 1; keys = [k] + [x for x in keys if x != k]
         elif op == "touch":
             k = rng.choice(keys) if keys and rng.random() < 0.8 else rng.randrange(nk + 1)
-            hist.append("touch:%d" % k)
+            hist.append("%s:%d" % ("touch" if rng.random() < 0.6 else "ins1", k))
             if k in keys: keys = [k] + [x for x in keys if x != k]
         elif op == "popf": hist.append("popf"); keys = keys[1:]
         elif op == "popb": hist.append("popb"); keys = keys[:-1]
@@ -206,7 +206,7 @@ def rv_ops(n):
             m = sz[i]
             def st(k):
                 s = list(sz); s[i] = k; return tuple(s)
-            if m < n: ops.append(("pb:%d:%d" % (i, ctr % 3), st(m + 1)))
+            if m < n: ops.append(("%s:%d:%d" % (("pb", "pbm", "eb")[ctr % 3], i, ctr % 3), st(m + 1)))
             if i == 0:
                 ops.append(("pop:0", st(max(m - 1, 0))))
                 ops += [("rsz:0:%d" % k, st(k)) for k in sorted(set([0, max(m - 1, 0), min(m + 1, n), n]))]
@@ -229,16 +229,21 @@ def rv_random(rng, n, length):
         if m > 0: w.update({"set": 2, "fill": 0.5})
         op = rng.choices(list(w), weights=list(w.values()))[0]
         v = rng.randrange(4)
-        if op == "pb": hist.append("pb:%d:%d" % (i, v)); sz[i] += 1
+        if op == "pb": hist.append("%s:%d:%d" % (rng.choice(["pb", "pbm", "eb"]), i, v)); sz[i] += 1
         elif op == "pop": hist.append("pop:%d" % i); sz[i] = max(m - 1, 0)
         elif op == "rsz":
             k = rng.choice([0, n, max(m - 1, 0), min(m + 1, n), rng.randrange(n + 1)]); hist.append("rsz:%d:%d" % (i, k)); sz[i] = k
         elif op == "cl": hist.append("cl:%d" % i); sz[i] = 0
         elif op == "set": hist.append("set:%d:%d:%d" % (i, rng.randrange(m), v))
         elif op == "fill": hist.append("fill:%d:%d" % (i, v))
-        elif op == "mk": c = rng.randrange(n + 1); hist.append("mk:%d:%d:%d" % (i, c, v)); sz[i] = c
+        elif op == "mk":
+            c = rng.randrange(n + 1); sz[i] = c
+            hist.append("mk:%d:%d:%d" % (i, c, v) if rng.random() < 0.7 else "mkd:%d:%d" % (i, c))
         elif op == "from":
-            c = rng.randrange(n + 1); hist.append("from:%d:%s" % (i, ",".join(str(rng.randrange(4)) for _ in range(c)))); sz[i] = c
+            c = rng.randrange(n + 1)
+            if rng.random() < 0.3: c = min(c, 3); hist.append("il:%d:%d" % (i, c))
+            else: hist.append("from:%d:%s" % (i, ",".join(str(rng.randrange(4)) for _ in range(c))))
+            sz[i] = c
         elif op == "swap": hist.append("swap"); sz = [sz[1], sz[0]]
         elif op == "asg": hist.append("asg:%d" % i); sz[i] = sz[1 - i]
         elif op == "at": hist.append("at:%d:%d" % (i, rng.choice([0, m, max(m - 1, 0), n, n + 3, rng.randrange(n + 2)])))
@@ -252,10 +257,10 @@ def bv_ops(bs):
         ops += [("cl", 0), ("sall", n), ("uall", n)]
         if n > 0:
             i = n - 1
-            ops += [("set:%d:%d:1" % (i, bs - 1), n), ("flip:%d:0" % i, n), ("bflip:%d" % i, n), ("abits:%d:%s" % (i, pats[ctr % len(pats)]), n),
+            ops += [("%s:%d:%d:1" % (("set", "sidx")[ctr % 2], i, bs - 1), n), ("flip:%d:0" % i, n), ("bflip:%d" % i, n), ("abits:%d:%s" % (i, pats[ctr % len(pats)]), n),
                     ("shl:%d:1" % i, n), ("shr:%d:1" % i, n), ("xor:%d:%s" % (i, pats[(ctr + 1) % len(pats)]), n)]
             if n > 1:
-                ops += [("ablk:0:%d" % i, n), ("orb:%d:0" % i, n), ("andb:0:%d" % i, n)]
+                ops += [("%s:0:%d" % (("ablk", "ablkc")[ctr % 2], i), n), ("orb:%d:0" % i, n), ("andb:0:%d" % i, n)]
         return ops
     return f
 
@@ -273,12 +278,16 @@ def bv_random(rng, bs, length):
         if op == "rsz": k = rng.choice([0, n + 1, n + 2, max(n - 1, 0), rng.randrange(6)]); hist.append("rsz:%d:%d" % (k, rng.randrange(2))); n = k
         elif op in ("cl",): hist.append("cl"); n = 0
         elif op in ("sall", "uall"): hist.append(op)
-        elif op == "set": hist.append("set:%d:%d:%d" % (i, rng.randrange(bs), rng.randrange(2)))
+        elif op == "set":
+            z = rng.random(); j = rng.randrange(bs)
+            hist.append("set:%d:%d:%d" % (i, j, rng.randrange(2)) if z < 0.5 else "sidx:%d:%d:%d" % (i, j, rng.randrange(2)) if z < 0.8 else "rbit:%d:%d" % (i, j))
         elif op == "flip": hist.append("flip:%d:%d" % (i, rng.randrange(bs)))
         elif op in ("bset", "breset", "bflip"): hist.append("%s:%d" % (op, i))
         elif op == "abool": hist.append("abool:%d:%d" % (i, rng.randrange(2)))
         elif op in ("abits", "and", "or", "xor"): hist.append("%s:%d:%s" % (op, i, bits()))
-        elif op in ("ablk", "andb", "orb", "xorb"): hist.append("%s:%d:%d" % (op, i, rng.randrange(n)))
+        elif op in ("ablk", "andb", "orb", "xorb"):
+            if op == "ablk" and rng.random() < 0.4: op = "ablkc"
+            hist.append("%s:%d:%d" % (op, i, rng.randrange(n)))
         elif op in ("shl", "shr"): hist.append("%s:%d:%d" % (op, i, rng.choice([0, 1, bs - 1, bs, bs + 1, rng.randrange(bs + 2)])))
     return "bv %d " % bs + " ".join(hist)
 
@@ -327,7 +336,7 @@ def gen(ctx):
 def probes(ctx):
     """compile-only probes of the public interface with default template arguments; returns dict name -> (ok, log)"""
     res = {}
-    for name in ("probe_sllist", "probe_lru"):
+    for name in ("probe_sllist", "probe_lru", "probe_lru_cfind", "probe_lru_cback"):
         cmd = ["g++", "-std=gnu++20", "-fsyntax-only", "-w", "-DHAVE_CONFIG_H", "-I" + os.path.join(V.VERIF, "harness", "common", "include"),
                "-I" + os.path.join(V.VERIF, "harness", "common"), "-I" + ctx.repo, os.path.join(H, name + ".cc")]
         rc, out = V.sh(cmd, timeout=120)
@@ -341,6 +350,8 @@ def build_impl(ctx, pr):
         flags = []
         if k == "sl" and pr["probe_sllist"][0]: flags.append("-DC11_SL_DEFAULT_ALLOC")
         if k == "lru" and pr["probe_lru"][0]: flags.append("-DC11_LRU_SELF_CONTAINED")
+        if k == "lru" and pr["probe_lru_cfind"][0]: flags.append("-DC11_LRU_CONST_FIND")
+        if k == "lru" and pr["probe_lru_cback"][0]: flags.append("-DC11_LRU_CONST_BACK")
         jobs.append(dict(srcs=[os.path.join(H, b + ".cc")], out=ctx.path("impl_" + b), san=True, flags=flags))
     V.cxx_many(ctx, jobs)
     return {k: ctx.path("impl_" + b) for k, b in CONT.items()}
@@ -470,6 +481,12 @@ def run(ctx):
     if not pr["probe_lru"][0]:
         ctx.violation("C11:lru:compile:resize-needs-cassert",
                       {"case": "harness/C11/probe_lru.cc", "oracle": "lru.hh must be self-contained: lru::resize uses assert", "log": pr["probe_lru"][1]})
+    if not pr["probe_lru_cfind"][0]:
+        ctx.violation("C11:lru:compile:const-find",
+                      {"case": "harness/C11/probe_lru_cfind.cc", "oracle": "lru::find(key) const must be instantiable", "log": pr["probe_lru_cfind"][1]})
+    if not pr["probe_lru_cback"][0]:
+        ctx.violation("C11:lru:compile:const-back",
+                      {"case": "harness/C11/probe_lru_cback.cc", "oracle": "a const lru must offer back() as it offers front()", "log": pr["probe_lru_cback"][1]})
     cases, ncorpus, nexh = gen(ctx)
     ctx.log("generated %d cases (%d corpus, %d exhaustive)" % (len(cases), ncorpus, nexh))
     mo = V.run_cases(ctx, [model], cases, tag="model", timeout=900)
@@ -552,7 +569,15 @@ def run(ctx):
         "impl_model_disagreements_accepted_by_oracle": ndrift, "histories_outside_preconditions_skipped": nskip, "model_spec_mismatches": nms,
         "sanitizer": "all impl runs are -fsanitize=address,undefined -fno-sanitize-recover=all; an abort inside a history is the observation UB",
         "compile_probes": {k: v[0] for k, v in pr.items()}, "exhaustive": False,
-        "harness_workarounds_active": [n for n, ok in (("sllist: allocator with allocate(n,hint)", pr["probe_sllist"][0]), ("lru: <cassert> included by the driver", pr["probe_lru"][0])) if not ok],
+        "harness_workarounds_active": [n for n, ok in (("sllist: allocator with allocate(n,hint)", pr["probe_sllist"][0]), ("lru: <cassert> included by the driver", pr["probe_lru"][0]),
+                                                        ("lru: const find() not exercised", pr["probe_lru_cfind"][0]), ("lru: const back(0) instead of back()", pr["probe_lru_cback"][0])) if not ok],
+        "secondary_access_paths": "after every op the drivers re-read the whole contents through every other public read path and flag any difference in the observation: "
+                                  "ArrayList iterator/const_iterator/converted const_iterator operator[] from begin and from a middle position (both directions), elementAt, "
+                                  "+n/-n/+=/-=, distances, order comparisons, reverse walk, post-inc/dec, position(), const and non-const operator[]; SLList iterator/const_iterator/"
+                                  "ModifyIterator lockstep walk with all equals() overloads and conversions, operator<<; ReservedVector non-const and c-prefixed iterators, "
+                                  "[]/at()/front/back/data const and non-const, at() throwing, hash_value/std::hash, operator<<, push_back(const&)/(&&)/emplace_back, (count)/initializer-list "
+                                  "ctors; BitSetVector mutable proxy and iterator reads, back(), the three constructors, operator<<, reference::operator[] assignment, reset(n), "
+                                  "assignment from a const proxy; lru const size/front/back/find, insert(key)",
         "deep_stream": {"drivers_built": sorted(deep), "histories_compared": deep_cmp, "histories_with_private_state_drift": deep_diff, "drift_samples": deep_samples,
                         "observables": "ArrayList start_,size_,capacity_,null-chunk pattern; SLList tail_ = last reachable node, size_ = #reachable nodes"},
         "traces_validated_against_impl": len(cases),
